@@ -93,6 +93,8 @@ def part_csv(sh, res):
     names = sp_['names']
     rowsC = [[r[0], r[1]] for r in sp_['nrows'] if None not in r] + [[sp_['names'][0], sp_['names'][1]], ['', 'x,"y']]
     tabs = list(qcheck.tables_upto(rowsC, 2)) + [rowsC]
+    # ragged files: with a header the CSV writer insists on the header's width, so the first record of another width fails the query there (a query-execution error naming it)
+    tabs += [[rowsC[0], [rowsC[1][0]]], [[rowsC[0][0]], rowsC[1]], [rowsC[0], rowsC[1], [rowsC[0][0], 'x', 'extra'], rowsC[0]], [rowsC[0], rowsC[1], rowsC[0], [rowsC[1][0]]]]
     base = '/dev/shm' if os.path.isdir('/dev/shm') else tempfile.gettempdir()
     scratch = tempfile.mkdtemp(prefix='vfc05.', dir=base)
     st = lambda recs: [['' if v is None else str(v) for v in r] for r in recs]
@@ -112,6 +114,16 @@ def part_csv(sh, res):
                         exp = refql.evaluate(q, A, None, names, None)
                         expn = refql.evaluate_neutral(q, A, None, names, None)
                         want = lambda e: [names] + st(e.records)
+                        if any(len(r) != len(names) for r in A):
+                            bad = min(i for i, r in enumerate(A) if len(r) != len(names)) + 1
+                            def widen(e):
+                                if e is not None and (e.error is None or (e.error[1] or 10 ** 9) > bad) and all(len(r) == len(a) for r, a in zip(e.records or [], A)):
+                                    return refql.Outcome(error=('runtime', bad))
+                                return e
+                            if exp.error is None and not all(len(r) == len(a) for r, a in zip(exp.records, A)):
+                                continue      # an assignment widened a short record: which record first has another width is not what this slice is about
+                            exp, expn = widen(exp), widen(expn)
+                            res.feat('csv_update_ragged_with_header')
                     else:
                         exp = refql.evaluate(q, [names] + A, None, None, None)
                         expn = refql.evaluate_neutral(q, [names] + A, None, None, None)
@@ -149,7 +161,7 @@ def part_csv(sh, res):
                             res.nontrivial += 1
                     if expn is not None and fi % 2 == 0:
                         for bulk in (False, True):
-                            jsbatch.append({'op': 'query_csv', 'query': textjs + mod, 'input_path': p1, 'out_path': os.path.join(scratch, 'jo.csv'), 'dlm': ',', 'policy': 'quoted', 'with_headers': flag, 'bulk': bulk})
+                            jsbatch.append({'op': 'query_csv', 'query': textjs + mod, 'input_path': p1, 'out_path': os.path.join(scratch, 'jo%d_%d.csv' % (fi, int(bulk))), 'dlm': ',', 'policy': 'quoted', 'with_headers': flag, 'bulk': bulk})       # an output file of its own: a failed query may leave its stream open
                             jsmeta.append((expn, want(expn) if expn.error is None else None, {'front_end': 'rbql-js query_csv', 'bulk': bulk, 'query': textjs + mod, 'caller_header_flag': flag, 'file_lines': [names] + A}))
                     else:
                         os.unlink(p1)
@@ -248,7 +260,7 @@ def main(tier, seed):
              'x WHERE x {none, INNER, LEFT JOIN} x with/without SET x all tables of the prefix-closed row tree + a de Bruijn table; the named and two-column queries also through rbql-py / rbql-js query_csv on files x 9 header modes (caller flag x WITH spellings); non-trivial = at least one row actually changes',
         assumptions=['RefQL is the statement of the semantics', 'UPDATE + LEFT JOIN on an unmatched row: both "unchanged" (C05 wording) and "updated against an all-None partner" (C04 wording) are accepted'],
         extra={'queries': len(sp_['qs'])},
-        min_features={'some_rows_unchanged': 100, 'ref_error_cases': 100, 'error_after_first_record': 20, 'left_join_unmatched_rows': 20, 'csv_update_cases': 20000, 'csv_update_modifier_overrides_flag': 10000, 'js_csv_update_cases': 20000})
+        min_features={'some_rows_unchanged': 100, 'ref_error_cases': 100, 'error_after_first_record': 20, 'left_join_unmatched_rows': 20, 'csv_update_ragged_with_header': 500, 'csv_update_cases': 20000, 'csv_update_modifier_overrides_flag': 10000, 'js_csv_update_cases': 20000})
 
 
 def replay(rep):
